@@ -155,3 +155,29 @@ pub fn run_replay_worker(check: &dyn Check, replay: &Value) -> i32 {
         }
     }
 }
+
+/// Minimise in a (sub)process: prints `M <json>` with the shrunk replay
+pub fn run_minimise_worker(check: &dyn Check, replay: &Value) -> i32 {
+    install_panic_hook();
+    let sig = replay.get("expect").cloned().unwrap_or(Value::Null);
+    let stdout = std::io::stdout();
+    {
+        let mut out = stdout.lock();
+        let _ = writeln!(out, "B 0");
+        let _ = out.flush();
+    }
+    let r = catch(|| check.minimise(replay, &sig));
+    let mut out = stdout.lock();
+    match r {
+        Ok(v) => {
+            let _ = writeln!(out, "M {v}");
+            let _ = out.flush();
+            0
+        }
+        Err(p) => {
+            let _ = writeln!(out, "X 0 harness panic while minimising: {} at {}:{}", p.msg.replace('\n', " "), p.file, p.line);
+            let _ = out.flush();
+            2
+        }
+    }
+}
